@@ -811,8 +811,49 @@ def same_file(F, res, rule="U6"):
            how="callers of Diagnostic::with_note outside tests: %s" % producers)
 
 
+def line_ends_and_bom(F, res, rule="U8"):
+    """U8: "the (line, column) the server reports is the one an LSP client computes". A client ends a line at `\\n`, `\\r\\n` and a
+    lone `\\r`, and neither shows nor counts a byte order mark at the start of a file it opens. (a) LineMap::normalize maps a
+    lone `\\r` to a line end (a replace of '\\r' by "\\n" after the pairs are gone) - deleting it shifts every position behind
+    it; (b) the one reader of files from disk (C15/M12: every read goes through it) strips a leading U+FEFF."""
+    nm = F.fn(LM + "normalize")
+    lone = False
+    for b, t in nm.calls():
+        c = FL.short(callee(t) or callee_def(t) or "")
+        if c.rsplit("::", 1)[-1] == "replace":
+            vals = []
+            dnm = FL.Defs(nm)
+            for a in t["args"]:
+                k = a.get("k") if isinstance(a, dict) else None
+                if not isinstance(k, dict):
+                    o = dnm.origin_op(a) if isinstance(a, dict) else {}
+                    k = o.get("c") if o.get("k") == "const" else None
+                if isinstance(k, dict) and "str" in k:
+                    vals.append(k["str"])
+                if isinstance(k, dict) and k.get("ty") == "char" and "bits" in k:
+                    vals.append(chr(int(k["bits"])))
+            if "\r" in vals and "\n" in vals:
+                lone = True
+    res.ob(rule, "normalize/lone-cr-is-a-line-end", "a lone `\\r` ends a line for the server as it does for the client (normalize turns it into `\\n`)",
+           lone, where=nm.loc(), how="replace('\\r', \"\\n\") found: %s" % lone)
+    rs = [f for p, f in F.fns.items() if p.startswith("glas::server::") and f.blocks and "{closure" not in p and
+          any((callee(t) or callee_def(t) or "").endswith("read_to_string") for b, t in f.calls())]
+    bom = []
+    for f in rs:
+        has = False
+        for b, t in f.calls():
+            for a in t["args"]:
+                k = a.get("k") if isinstance(a, dict) else None
+                if isinstance(k, dict) and k.get("ty") == "char" and str(k.get("bits")) == str(0xFEFF):
+                    has = True
+        bom.append((FL.short(f.path), has))
+    res.ob(rule, "disk-read/strips-bom", "a text read from disk does not start with a byte order mark (the reader drops it)", bool(bom) and all(h for _n, h in bom),
+           where=rs[0].loc() if rs else "crates/glas/src/server.rs", how="readers: %s" % bom)
+
+
 def run(F, res, tier):
     width_table(F, res)
+    line_ends_and_bom(F, res)
     from rules import c13 as _c13
     _c13.line_map_coordinates_agree(F, res, rule="U2")
     scans(F, res)
